@@ -41,7 +41,17 @@ theorem threadOk_resume (th th' : Thread) (t : Time) (h : ThreadOk th) (hr : th.
         cases this with
         | yield _ _ _ hk => exact hk _ _
       · cases hr
-    · cases hr
+    · split at hr
+      · split at hr
+        · rename_i subs k hco
+          injection hr with hr; subst hr
+          refine ⟨?_, h.2⟩
+          have := h.1
+          rw [hco] at this
+          cases this with
+          | yield _ _ _ hk => exact hk _ _
+        · cases hr
+      · cases hr
 
 theorem run_ok (t : Time) : ∀ (fuel : Nat) (th : Thread), ThreadOk th →
     (∀ x, (th.run t fuel).1 = some x → ThreadOk x) ∧ PendingOk (th.run t fuel).2.2.1 := by
